@@ -20,7 +20,8 @@ META = {
     "dataset node recoverable from the received AST; (2) N concurrently awaited value_async() calls (same stream twice, siblings, "
     "different datasets, terminals) under a gate-controlled scheduler: all N! completion orders for N<=3 (quick) / N<=4 (thorough), "
     "random orders up to N=7, with derivations and executions between releases; (3) value() from 2-8 threads with "
-    "sys.setswitchinterval(1e-6); (4) rootless / multi-root queries must be rejected; distinct by (scenario, order / op sequence); "
+    "sys.setswitchinterval(1e-6) and, in every second scenario, yield injection (sleep(0) on 30% of the LINE events inside "
+    "object_stream.py / meta_data.py / event_dataset.py); (4) rootless / multi-root queries must be rejected; distinct by (scenario, order / op sequence); "
     "non-trivial = >= 2 executions overlapped or the history has >= 2 datasets and an override",
     "assumptions": ["true parallel races do not exist under the GIL for this code; the threaded part looks for logical interference only"],
     "floor_evaluations": {"quick": 1500, "thorough": 30000},
@@ -312,10 +313,16 @@ def threaded_scenario(ctx, hseed, nthreads):
             results[i] = {"exc": ex}
 
     ts = [threading.Thread(target=work, args=(i,)) for i in range(nthreads)]
-    for t in ts:
-        t.start()
-    for t in ts:
-        t.join(60)
+    from ..core import REPO
+    from ..hooks import YieldInjector
+
+    with YieldInjector(REPO, ["func_adl/object_stream.py", "func_adl/ast/meta_data.py", "func_adl/event_dataset.py"], seed=hseed, p=0.3 if hseed % 2 else 0.0) as yi:
+        for t in ts:
+            t.start()
+        for t in ts:
+            t.join(60)
+    ctx.count("yield-injections", yi.injected)
+    ctx.count("monitored-lines-in-threads", yi.lines)
     sys.setswitchinterval(old)
     enters = {x["title"]: x for x in hist.log if x["ev"] == "enter"}
     leaves = {x["n"]: x for x in hist.log if x["ev"] == "leave"}
